@@ -134,6 +134,8 @@ fn main() {
       for op in &ops[..cut] {
         fs.apply(op);
       }
+      // did the call complete a log fsync before the crash point?
+      let synced = ops[..cut].iter().any(|op| matches!(op, searchlite_core::storage::verif_trace::FsOp::Fsync(p) if p.file_name().map(|n| n == "wal.log").unwrap_or(false)));
       let images = fs.images(if thorough { 8 } else { 3 }, &mut rng);
       let (img, desc) = images[rng.below(images.len() as u64) as usize].clone();
       *dist.entry(format!("crash_in_{}", a.coq().split(' ').next().unwrap())).or_insert(0) += 1;
@@ -170,8 +172,8 @@ fn main() {
       }
       let c_lit = match &cont { Ok(c) => format!("(Some {})", lit_contents(c)), Err(_) => "None".into() };
       let q_lit = match &queue { Ok(q) => format!("(Some {})", lit_queue(q)), Err(_) => "None".into() };
-      evs.push(format!("ECrash ({}) {} {} {}", a.coq(), coq::b(whole), c_lit, q_lit));
-      evs_json.push(serde_json::json!({"crash_in": a.coq(), "after_ops": cut, "of_ops": ops.len(), "whole": whole,
+      evs.push(format!("ECrash ({}) {} {} {} {}", a.coq(), coq::b(whole), coq::b(synced), c_lit, q_lit));
+      evs_json.push(serde_json::json!({"crash_in": a.coq(), "after_ops": cut, "of_ops": ops.len(), "whole": whole, "log_synced_in_call": synced,
         "image": desc, "files": img.files.iter().map(|(n, c)| (n.clone(), c.len())).collect::<BTreeMap<_, _>>(),
         "recovered_contents": cont, "recovered_queue": queue}));
       match idx_opt {
